@@ -32,7 +32,7 @@ Definition nat_atom (n : nat) : sexp := Atom (dec_string (Z.of_nat n)).
 Definition serialize (dag : bool) (c : command) : sexp :=
   match c with
   | CSetLogic l => SList [Atom "set-logic"; Atom l]
-  | CDeclareSort n k => SList [Atom "declare-sort"; Atom n; nat_atom k]          (* name NOT quoted *)
+  | CDeclareSort n k => SList [Atom "declare-sort"; Atom (quote n); nat_atom k]
   | CDeclareFun n t => SList [Atom "declare-fun"; Atom (quote n); SList (fun_params t); fun_result t]
   | CDeclareConst n t => SList [Atom "declare-const"; Atom (quote n); SList (fun_params t); fun_result t]
   | CAssert t => SList [Atom "assert"; if dag then print_dag t else print_tree t]
@@ -44,17 +44,38 @@ Definition serialize (dag : bool) (c : command) : sexp :=
   | CPop n => SList [Atom "pop"; nat_atom n]
   end.
 
-(* get_types(formula, custom_only=True): every custom sort INSTANCE reachable from the sorts of
-   the formula's symbols, bound variables and constants *)
+(* TypesOracle.get_types(formula, custom_only=True): every custom sort INSTANCE reachable from the
+   sorts of the formula's symbols, bound variables, constants, function signatures AND (since the
+   repair of the oracle) of everything inside the arguments of function applications and the
+   index sort of array values.  [types_walk'] is models/Oracles.v's [types_walk] with those two
+   cases repaired; it can be replaced by Oracles.get_types once that model follows the repair. *)
+Fixpoint types_walk' (t : term) : list ty :=
+  match t with
+  | T o args =>
+      let rec := unions ty_eqb (map types_walk' args) in
+      match o with
+      | OSymbol _ ty => [ty]
+      | OFunction _ (TFun ps r) => union ty_eqb (dedupe ty_eqb (r :: ps)) rec
+      | OFunction _ _ => rec
+      | OArrayValue it => union ty_eqb [it] rec
+      | OForall vs | OExists vs => union ty_eqb (dedupe ty_eqb (map snd vs)) rec
+      | OBoolC _ | OIntC _ | ORealC _ _ | OBVC _ _ | OStrC _ => const_type o
+      | _ => rec
+      end
+  end.
 Definition is_custom (t : ty) : bool := match t with TUser _ _ => true | _ => false end.
-Definition custom_types (t : term) : list ty := filter is_custom (get_types t).
+Definition custom_types (t : term) : list ty :=
+  filter is_custom (dedupe ty_eqb (flat_map subtypes (types_walk' t))).
 
-Definition sort_decl (t : ty) : command :=
-  match t with TUser n args => CDeclareSort n (List.length args) | _ => CDeclareSort "?" 0 end.
+(* one declare-sort per sort DECLARATION (name, arity): all instances of a parametric sort share it *)
+Definition decl_eqb (a b : string * nat) : bool := String.eqb (fst a) (fst b) && Nat.eqb (snd a) (snd b).
+Definition sort_decls (t : term) : list (string * nat) :=
+  dedupe decl_eqb (map (fun ty => match ty with TUser n args => (n, List.length args) | _ => ("?", 0%nat) end)
+                       (custom_types t)).
 
 Definition script_from_formula (logic : string) (t : term) : list command :=
   [CSetLogic logic]
-  ++ map sort_decl (custom_types t)
+  ++ map (fun d => CDeclareSort (fst d) (snd d)) (sort_decls t)
   ++ map (fun v => CDeclareFun (fst v) (snd v)) (fv t)
   ++ [CAssert t; CCheckSat].
 
